@@ -436,3 +436,80 @@ Definition gd_bufsize_step_ne (maxbuf bs : Z) (a : gd_ack) : Z :=
   if (ga_len a =? bs) && gd_is_fast (ga_time a) && negb (bs =? maxbuf)
   then gd_min64 (gd_wrap64 (bs * Consts.guards_grow_factor)) maxbuf
   else bs.
+
+(* ------------------------------------------------------------------------------------ *)
+(* TIME as an input: the peer decides when it acknowledges, so the chunk time is whatever it
+   likes.  The step above takes the time in classes; here it is the measured duration in
+   whole milliseconds (the thresholds are multiples of a millisecond and the divisor is
+   chunkTime/time.Second, so nothing finer matters).  [thr] is the shrink threshold in ms as
+   read from the source; a divisor of zero is Go's "integer divide by zero" - a run-time panic
+   in a goroutine without recover - and is an explicit outcome: None. *)
+Definition gd_bufsize_step_ms (thr maxbuf bs len ms : Z) : option Z :=
+  if (len =? bs) && (ms <? Consts.guards_ack_fast_ms) && (bs <? maxbuf)
+  then Some (gd_min64 (gd_wrap64 (bs * Consts.guards_grow_factor)) maxbuf)
+  else if (thr <=? ms) && (len <=? bs)
+       then (let k := ms / 1000 in
+             if k =? 0 then None
+             else Some (let q := Z.quot bs k in if q <? Consts.guards_min_chunk then Consts.guards_min_chunk else q))
+       else Some bs.
+
+Fixpoint gd_bufsize_run_ms (thr maxbuf bs : Z) (l : list (Z * Z)) : option (list Z) :=
+  match l with
+  | [] => Some [bs]
+  | (len, ms) :: r =>
+    match gd_bufsize_step_ms thr maxbuf bs len ms with
+    | None => None
+    | Some bs' => match gd_bufsize_run_ms thr maxbuf bs' r with
+                  | None => None
+                  | Some rest => Some (bs :: rest)
+                  end
+    end
+  end.
+
+Definition gd_capacities_ms (maxbuf : Z) (l : list (Z * Z)) : option (list Z) :=
+  gd_bufsize_run_ms Consts.guards_ack_slow_ms maxbuf Consts.guards_init_buffer_size l.
+
+(* the class of a duration, for the comparison with the step above *)
+Definition gd_class_of_ms (ms : Z) : gd_chunk_time :=
+  if ms <? Consts.guards_ack_fast_ms then GdFast
+  else if ms <? Consts.guards_ack_slow_ms then GdMid else GdSlow (ms / 1000).
+
+(* the durations around every threshold and whole second the code distinguishes *)
+Definition gd_boundary_ms : list Z :=
+  [0; 1; 499; 500; 501; 999; 1000; 1001; 1499; 1999; 2000; 2001; 2999; 3000; 3001; 59999; 60000; 3600000; 9223372036854].
+
+(* ------------------------------------------------------------------------------------ *)
+(* archiveFileWriter.Write: which way one call goes.  [nilcheck] = the condition in front of
+   f.file.Write contains `f.file != nil` (read from the source).  A directory entry leaves
+   f.file nil and f.left = the announced size, both chosen by the peer. *)
+Inductive gd_aw_way := GdAwToFile | GdAwHeader | GdAwNilDeref.
+Definition gd_aw_dispatch (nilcheck : bool) (left : Z) (has_file : bool) : gd_aw_way :=
+  if 0 <? left then
+    (if has_file then GdAwToFile else if nilcheck then GdAwHeader else GdAwNilDeref)
+  else GdAwHeader.
+
+(* the state an entry header leaves behind: createDirOrFile returns no file for a directory *)
+Definition gd_aw_after_header (is_dir : bool) (size : Z) : Z * bool := (size, negb is_dir).
+
+(* any sequence of entry headers (is_dir, size) each followed by [k] further calls of Write *)
+Fixpoint gd_aw_ways (nilcheck : bool) (left : Z) (has_file : bool) (hs : list (bool * Z * nat)) : list gd_aw_way :=
+  match hs with
+  | [] => []
+  | (d, sz, k) :: r =>
+    let '(l1, f1) := gd_aw_after_header d sz in
+    gd_aw_dispatch nilcheck left has_file :: repeat (gd_aw_dispatch nilcheck l1 f1) k ++ gd_aw_ways nilcheck l1 f1 r
+  end.
+
+(* ------------------------------------------------------------------------------------ *)
+(* "#TYPE:payload" lines: recvCheck, recvCheckV2 and the relay's decodeRelayBufferString cut
+   line[1:idx] and line[idx+1:] at the first colon.  [min_idx] is the bound of the guard in
+   front (`idx < min_idx` is rejected; the source has 1).  Slicing line[1:0] panics. *)
+Inductive gd_split := GdSplitReject | GdSplitPanic | GdSplitOk (typ payload : list N).
+Definition gd_line_split (min_idx : Z) (line : list N) : gd_split :=
+  match index_byte 58%N line with
+  | None => if -1 <? min_idx then GdSplitReject else GdSplitPanic
+  | Some i =>
+    if Z.of_nat i <? min_idx then GdSplitReject
+    else if (i <? 1)%nat then GdSplitPanic
+    else GdSplitOk (firstn (i - 1) (skipn 1 line)) (skipn (S i) line)
+  end.
